@@ -123,8 +123,21 @@ PROPS['C14'] = {
     'trust': SCANNER_TRUST,
 }
 
+PROPS['C18'] = {
+    'units': [],
+    'extra': ['kengine'],
+    'level': 'model_checking',
+    'claim': 'BOUNDED (Kani/CBMC, not a proof): decode_loop cannot be brought under Verus (the trap enum holds a function pointer, which the verifier rejects), so a bounded harness on the real function stands in: with encoding_rs::Decoder::decode_to_string_without_replacement replaced by a nondeterministic stub of its documented contract, for every input of <= 1 byte, all trap modes and every decoder behaviour, decode_loop returns within 16 iterations and no slice index or arithmetic check fails. COMPLETE (loop-free harness over all byte values): detect_utf16_endianness equals the rule of the statement.',
+    'technique': 'Kani bounded harness with a contract stub of the decoder (bounded stand-in); loop-free Kani harness for the BOM-less detector (complete)',
+    'checker_cmd': 'cargo kani -Z function-contracts -Z stubbing --harness c18_decode_loop_terminates --harness c18_detect_utf16',
+    'not_decided': ['that the decoded text equals the original (correctness of encoding_rs, assumed)', 'read_to_end, the YAML loading after decoding, the user callback', 'inputs longer than the bound: the termination argument (lexicographic measure: bytes left, output headroom, room-for-one-character flag) is only checked up to the unwinding bound'],
+    'trust': ['ASSUMED contract of encoding_rs::Decoder (stub in kani/encoding_harness.rs, from the crate documentation); String::reserve/push modelled by capacity/length counters; format! stubbed'],
+}
+
 
 def trusted_base(pid):
+    if not PROPS[pid].get('units'):
+        return ['A1 tools: Kani 0.68 / CBMC 6.11; the scratch crate is a byte-identical copy of /repo/<crate>/src with a marked harness module appended (re-checked on every run)'] + PROPS[pid].get('trust', [])
     return COMMON_TRUST + PROPS[pid].get('trust', [])
 
 
